@@ -118,9 +118,18 @@ type Evidence struct {
 	Violations  int            `json:"violations"`
 }
 
+// EvidenceDir is /verif/evidence unless VERIF_EVIDENCE_DIR redirects it (runs against a scratch
+// worktree must not overwrite the evidence of the real tree).
+func EvidenceDir() string {
+	if d := os.Getenv("VERIF_EVIDENCE_DIR"); d != "" {
+		return d
+	}
+	return verifDir() + "/evidence"
+}
+
 // WriteEvidence writes the evidence file atomically.
 func WriteEvidence(ev *Evidence) error {
-	dir := verifDir() + "/evidence"
+	dir := EvidenceDir()
 	_ = os.MkdirAll(dir, 0o755)
 	b, _ := json.MarshalIndent(ev, "", " ")
 	tmp := dir + "/." + ev.PropertyID + ".tmp"
